@@ -407,7 +407,7 @@ theorem unswallowed_error_leaves_step (d : StepDef) (body : Body) (callee : CofC
 /-- step 1: `while (max 5, stop: whileCounter == 2, sleep 3) > foreach [x, y]`; step 2: a while
     with `max 2`, `errorOnMax`, and a *falsy* raw foreach `()`. -/
 def demoProg : Program := ⟨[{ name := "main", groups := [
-  ("steps", some [
+  ("steps", .steps [
     { name := some "vprobe",
       inArgs := some [("p", .dict [(.str "tag", .str "a")])],
       foreach := some (.list [.str "x", .str "y"]),
